@@ -1,16 +1,72 @@
 /-
   PCV.Model.DrvC12 — driver requests of property C12 (op names start with "c12.").
+
+  `c12.layout idx=<i> fields=[[b,…],…]`
+      `i` selects the i-th entry of `Generated.SerSchemas.all` (the hand-written impl as T1 read it
+      from the current source); `fields` are the encodings of the struct's fields by the real
+      library, one byte list per *declared* field in declaration order (`[]` for prepared fields,
+      which have no encoding; the model fills them with their own source's bytes).
+      Reply: `enc` = what `structCodec` writes (the field encodings in the model's write order),
+      `size` = what it reports, `rt` = 1 iff the model's decoder, reading each field with the width
+      it was written with, returns the record and the two sentinel bytes appended, `trunc` = 1 iff
+      it refuses the encoding with the last byte removed.
+  `c12.names idx=<i>` → `n` = number of declared fields, `w` = number of written fields.
 -/
 import PCV.Model.Wire
 import PCV.Model.DrvUtil
+import PCV.Model.Codec
+import PCV.Generated.SerSchemas
 namespace PCV
 namespace DrvC12
+open Driver
+
+def schemaAt (i : Nat) : Except String Schema :=
+  match Generated.SerSchemas.all[i]? with
+  | some s => .ok s.2
+  | none => .error "no-such-schema"
+
+/-- the record the byte lists describe; a prepared field `prepared_X` holds the bytes of `X` -/
+def mkRec (s : Schema) (vals : List (List Nat)) : Rec (List Nat) :=
+  let base : Rec (List Nat) := s.fieldNames.zip vals
+  base.map fun (f, v) =>
+    match s.preparedFrom f with
+    | some loc =>
+      match s.read.find? (fun r => r.loc == loc) with
+      | some r => (f, base.get r.field)
+      | none => (f, v)
+    | none => (f, v)
+
+def layout (s : Schema) (vals : List (List Nat)) : List (String × Val) :=
+  let x := mkRec s vals
+  let fc : String → Codec (List Nat) := fun f => Codec.raw (x.get f).length
+  let c := s.structCodec fc (fun _ v => v)
+  let e := c.enc x
+  let rt : Bool :=
+    match c.dec (e ++ [171, 205]) with
+    | some (y, rest) => decide (y = x) && decide (rest = [171, 205])
+    | none => false
+  let trunc : Bool :=
+    match e with
+    | [] => true
+    | _ => (c.dec e.dropLast).isNone
+  [("enc", vNats e), ("size", .n (c.size x)), ("rt", vBool rt), ("trunc", vBool trunc)]
 
 /-- `none` = not an op of this module -/
 def handle (p : Nat) (r : Req) : Option (Except String String) :=
   let _ := p
-  let _ := r
-  none
+  match r.op with
+  | "c12.layout" => some do
+    let i ← asNat (← need r "idx")
+    let s ← schemaAt i
+    let fs ← asList (← need r "fields")
+    let vals ← fs.mapM asNats
+    if vals.length ≠ s.fields.length then .error "field-count-mismatch"
+    else pure <| okReply (layout s vals)
+  | "c12.names" => some do
+    let i ← asNat (← need r "idx")
+    let s ← schemaAt i
+    pure <| okReply [("n", .n s.fields.length), ("w", .n s.written.length)]
+  | _ => none
 
 end DrvC12
 end PCV
